@@ -71,3 +71,11 @@ Theorem c17_std_nostd_agree_on_unit_bases :
   forall prec emax (Hprec : Prec_gt_0 prec) (Hmax : Prec_lt_emax prec emax) e,
     fpowi prec emax Hprec Hmax LibStd (fone prec emax Hprec Hmax) e = fpowi prec emax Hprec Hmax LibCore (fone prec emax Hprec Hmax) e.
 Proof. intros. rewrite !Proofs.FloatLemmas.fpowi_one. reflexivity. Qed.
+
+(* ---- each autoconvert body in the source has exactly one not_autoconvert twin, which is the same expression
+   without the re-basing, and conversely (Gen/OpsSrc.v is regenerated from the source on every run): disabling
+   the feature cannot change what a same-base program computes ---- *)
+From Coq Require Import List Bool String.
+From UomV Require Import Model.OpsSrc Gen.OpsSrc Spec.OpsTie.
+Theorem c17_operator_twins_differ_only_by_rebasing : twins_ok src_ops = true.
+Proof. exact operator_twins_differ_only_by_rebasing. Qed.
